@@ -22,7 +22,7 @@ CONSTANTS
     SeqMenu,           \* set of [seq, ovf]: values the counter hook may install
     PtMenu(_), AadMenu(_), \* plaintexts / associated data for the n-th Seal of a context (n from 0)
     FormMenu,          \* subset of {"alloc", "detached"}
-    DeliveryMenu,      \* set of delivery descriptors (see Deliver)
+    DeliveryMenu(_),   \* sent -> set of delivery descriptors (see Deliver)
     ExportMenu,        \* set of <<exporter_context, L>>
     ShotSMenu(_),      \* ctx -> set of [p, pt, aad]: single-shot seals
     ShotRMenu(_),      \* shots -> set of [p, d]: single-shot opens (d a delivery descriptor)
@@ -40,6 +40,8 @@ VARIABLES
     hist       \* sequence of `last` records (only when RecordHist)
 
 vars == <<ctx, sent, rcvd, shots, used, last, hist>>
+\* everything except the record of the last call (used as VIEW: `last` is an observation, it adds no behaviour)
+CoreView == <<ctx, sent, rcvd, shots, used, hist>>
 
 Live      == DOMAIN ctx
 Senders   == {c \in Live : ctx[c].role = "S"}
@@ -352,7 +354,7 @@ Next ==
     \/ \E c \in Live, v \in SeqMenu : HookSetSeq(c, v)
     \/ \E c \in Senders : \E pt \in PtMenu(Len(sent[c])), aad \in AadMenu(Len(sent[c])), f \in FormMenu :
             Seal(c, pt, aad, f)
-    \/ \E c \in Receivers, d \in DeliveryMenu, f \in FormMenu : Open(c, d, f)
+    \/ \E c \in Receivers, d \in DeliveryMenu(sent), f \in FormMenu : Open(c, d, f)
     \/ \E c \in Live, e \in ExportMenu : Export(c, e[1], e[2])
     \/ \E m \in ShotSMenu(ctx), f \in FormMenu : SingleShotSeal(m, f)
     \/ \E m \in ShotRMenu(shots), f \in FormMenu : SingleShotOpen(m, f)
